@@ -59,7 +59,7 @@ def upvar_index_of(body, op):
     return None
 
 
-@rule('S1', props=['C07', 'C08', 'C17'], floor=2, configs=('all',))
+@rule('S1', props=['C07', 'C08', 'C17', 'C12'], floor=2, configs=('all',))
 def s1_exactly_once(prog):
     """Stage::run for a cons cell: if the task already ran (has_run.0) it is not run again and the
     claim state is handed on unchanged; otherwise exactly one rayon::join runs the task exactly once
